@@ -50,8 +50,8 @@ HkdfObjExpand(HM(_, _), o, info, n) ==
 -----------------------------------------------------------------------------
 (* RFC 8018 section 5.2:  T_i = U_1 xor ... xor U_c,  U_1 = PRF(P, S | INT(i)),            *)
 (* U_j = PRF(P, U_{j-1}), INT(i) big-endian 32 bits from 1; DK = first L bytes of T_1 |... *)
-(* The library documents count = 0 as 1.  Block numbers stay below 2^16 here.              *)
-Int32(i) == <<BC(0), BC(0), BC(i \div 256), BC(i % 256)>>
+(* The library documents count = 0 as 1.  Block numbers below 2^31 (TLC integers).          *)
+Int32(i) == <<BC(i \div 16777216), BC((i \div 65536) % 256), BC((i \div 256) % 256), BC(i % 256)>>
 Pbkdf2Block(PRF(_, _), pw, salt, count, i) ==
   LET u1 == PRF(pw, salt \o Int32(i))
       r  == FoldLeft(LAMBDA acc, j : LET u == PRF(pw, acc.u) IN [u |-> u, t |-> XorSeq(acc.t, u)],
